@@ -69,7 +69,8 @@ def nt_enc_later_segmented(c):
 
 def enc_random(tier, seed, path):
     n = 300 if tier == 'quick' else 6000
-    return enc_gen.write(path, enc_gen.gen(seed, n, 'r', big=True))
+    ext = list(enc_gen.extremes())
+    return enc_gen.write(path, list(enc_gen.gen(seed, n, 'r', big=True)) + (ext if tier == 'thorough' else ext[seed % 5::5]))
 
 
 def enc_wrap(tier, seed, path):
@@ -306,6 +307,11 @@ def dec_arbitrary(tier, seed, path):
     return dec_gen.write(path, dec_gen.arbitrary(seed + 29, 150 if tier == 'quick' else 5000, 'x'))
 
 
+def dec_frames_c02(tier, seed, path):
+    n = 300 if tier == 'quick' else 10000
+    return dec_gen.write(path, dec_gen.frames(seed + 18, n, 'c'))
+
+
 def dec_arbitrary_plain(tier, seed, path):
     return dec_gen.write(path, dec_gen.arbitrary(seed + 30, 150 if tier == 'quick' else 5000, 'y'))
 
@@ -330,6 +336,7 @@ DEC_MALFORMED = {'kind': 'mc', 'name': 'malformed', 'module': 'MC_Frames', 'comp
                  'cfg': {'quick': 'MC_Malformed_quick.cfg', 'thorough': 'MC_Malformed_thorough.cfg'},
                  'extra': {'recheck': True}, 'invariants': ['InvC02', 'InvC04']}
 DEC_ARBITRARY = {'kind': 'gen', 'name': 'arbitrary-asan', 'gen': dec_arbitrary, 'comp': 'dec', 'trace': 'TraceDec', 'variant': 'asan'}
+DEC_FRAMES_ASAN = {'kind': 'gen', 'name': 'randomframes-asan', 'gen': dec_frames_c02, 'comp': 'dec', 'trace': 'TraceDec', 'variant': 'asan'}
 DEC_ARBITRARY_P = {'kind': 'gen', 'name': 'arbitrary-guardpages', 'gen': dec_arbitrary_plain, 'comp': 'dec', 'trace': 'TraceDec'}
 DEC_STREAMS = {'kind': 'gen', 'name': 'streams', 'gen': dec_streams, 'comp': 'dec', 'trace': 'TraceDec'}
 DEC_RFAULTS = {'kind': 'gen', 'name': 'randomfaults', 'gen': dec_faults, 'comp': 'dec', 'trace': 'TraceDec'}
@@ -459,11 +466,11 @@ PROPS = {
                     'not fit. Non-trivial = distinct episodes containing a TECMP message of a supported message type.',
             'assumptions': COMMON_ASSUMPTIONS + ['bytes after the declared TECMP payload length are not generated (their meaning is not pinned down)',
                                                  'the CAN CRC word and the classic / FD choice are not prescribed by the property']},
-    'C02': {'level': 'exploration', 'stages': [DEC_MALFORMED, DEC_MCTECMP, DEC_ARBITRARY, DEC_ARBITRARY_P],
+    'C02': {'level': 'exploration', 'stages': [DEC_MALFORMED, DEC_MCTECMP, DEC_FRAMES_ASAN, DEC_ARBITRARY, DEC_ARBITRARY_P],
             'nontrivial_case': nt_dec_any,
             'technique': 'TLA+ specification enumerates structured malformed inputs and fixes the expected outputs (TLC judges the '
                          'recorded traces); memory safety itself is observed by guard pages and ASan/UBSan, not decided by TLC',
-            'rule': 'MC_Frames/Malformed: frames of 0..MaxMsgs catalogue messages with one byte replaced (every header field, flag, '
+            'rule': 'MC_Frames/Malformed: frames of 0..MaxMsgs catalogue messages (incl. typed payloads far shorter than their header, ending exactly at the end of the buffer) with one byte replaced (every header field, flag, '
                     'type and length field; 7 values each) or cut below the header; MC_Tecmp (72005 TECMP frames); seeded random byte '
                     'strings of 0..65536 bytes, TECMP-looking and mutated well-formed frames in histories on one decoder. Every '
                     'input is presented read-only with its end (or start) at an inaccessible page and unmapped before the result is '
